@@ -226,7 +226,9 @@ pub fn worker_main(check: &mut dyn CheckImpl, args: &[String]) -> ! {
     let to: u64 = args[3].parse().unwrap();
     let stride: u64 = args[4].parse().unwrap();
     crash_open(&args[5]);
-    alloc::CAP.store(64 << 20, Ordering::SeqCst);
+    // the cap is C18's fault seam (hostile length fields); C12's wide shapes legitimately build keys of
+    // a few hundred MiB
+    alloc::CAP.store(if check.id() == "C18" { 64 << 20 } else { 1 << 30 }, Ordering::SeqCst);
     crate::util::install_quiet_panic_hook();
     let stdout = std::io::stdout();
     let mut acc = Acc::default();
@@ -708,7 +710,7 @@ pub fn replay_main(checks: &mut [Box<dyn CheckImpl>], file: &str) -> ! {
     let Some(c) = checks.iter_mut().find(|c| c.id() == prop) else {
         harness_error(&format!("no check for property {prop}"));
     };
-    alloc::CAP.store(64 << 20, Ordering::SeqCst);
+    alloc::CAP.store(if prop == "C18" { 64 << 20 } else { 1 << 30 }, Ordering::SeqCst);
     crate::util::install_quiet_panic_hook();
     // crash attribution for aborting replays
     let crashfile = format!("{}/target/run/replay-crash-{}.json", verif_root(), std::process::id());
